@@ -153,6 +153,19 @@ func AllShapes(idx int) *schema.File {
 		{Name: "circle", Num: 1, Kind: "message", Ref: "Shape_Circle", Oneof: "kind"},
 		{Name: "side", Num: 2, Kind: "int32", Oneof: "kind"},
 		{Name: "more", Num: 3, Kind: "message", Ref: "Shape_Circle", Label: "repeated"},
+		// messages WITHOUT declared fields: a present-but-empty Ack must keep its presence, an
+		// Envelope captures everything it is sent
+		{Name: "ack", Num: 5, Kind: "message", Ref: "Ack"},
+		{Name: "ack_opt", Num: 6, Kind: "message", Ref: "Ack", Label: "optional"},
+		{Name: "env", Num: 7, Kind: "message", Ref: "Envelope"},
+		{Name: "acks", Num: 9, Kind: "message", Ref: "Ack", Label: "repeated"},
+		// a second nested message called Inner (Nest has one too) with DIFFERENT message options
+		{Name: "sinner", Num: 8, Kind: "message", Ref: "Shape_Inner"},
+	}}
+	ack := schema.Message{Name: "Ack"}
+	envelope := schema.Message{Name: "Envelope", Capture: true}
+	shapeInner := schema.Message{Name: "Shape_Inner", Parent: "Shape", Capture: true, Fields: []schema.Field{
+		{Name: "x", Num: 1, Kind: "int32"},
 	}}
 	// an enum declared inside a LEAF message (no nested message, no map field)
 	f.Enums = append(f.Enums, schema.Enum{Parent: "Shape_Circle", Name: "Shape_Circle_Unit", Names: []string{"MM", "INCH"}, Values: []int32{0, 1}})
@@ -165,7 +178,7 @@ func AllShapes(idx int) *schema.File {
 		{Name: "kids", Num: 1, Kind: "message", Ref: "Tree", Label: "repeated", Always: true},
 		{Name: "v", Num: 2, Kind: "int32"},
 	}}
-	f.Messages = append(f.Messages, plain, opt, rep, one, cast, wide, nest, nestInner, nestDeep, user, shape, shapeCircle, tree)
+	f.Messages = append(f.Messages, plain, opt, rep, one, cast, wide, nest, nestInner, nestDeep, user, ack, envelope, shape, shapeCircle, shapeInner, tree)
 	return f
 }
 
